@@ -159,6 +159,34 @@ def main(tier, seed):
         except Exception as e:
             rep.violation('conv:exception', 'base/direction conversion raises %r for data shape %s' % (e, data.shape), dict(kind='conv', shape=list(data.shape), exc=repr(e)))
 
+    # ------------------------------------------------ round trips with an in-place update of the source in between: whether a conversion
+    # hands out a view or a copy must not depend on the shape (learned from a generic configuration, then every edge configuration -
+    # first order, one direction, scalars, size-1 arrays - must behave the same and the round trip must hold for the state converted)
+    def alias_pattern(D, P, shp):
+        data = (numpy.arange(D * P * int(numpy.prod(shp, dtype=int)), dtype=float) + 1).reshape((D, P) + shp)
+        u = UTPM(data.copy())
+        x, V = U.utpm2base_and_dirs(u)
+        Vd = U.utpm2dirs(u)
+        pat = (bool(numpy.shares_memory(x, u.data)), bool(numpy.shares_memory(V, u.data)), bool(numpy.shares_memory(Vd, u.data)))
+        xs, Vs = numpy.array(x, copy=True), numpy.array(V, copy=True)
+        u *= 3.0                                         # the source moves on
+        changed = (not numpy.array_equal(x, xs), not numpy.array_equal(V, Vs))
+        back = U.base_and_dirs2utpm(xs, Vs)
+        d2 = data.copy(); d2[0, :] = d2[0, 0]
+        return pat, changed, bool(numpy.array_equal(back.data, d2))
+    try:
+        ref_pat, ref_changed, ref_ok = alias_pattern(3, 2, (2, 3))
+        for D, P, shp in [(2, 1, (3,)), (2, 1, ()), (3, 1, ()), (2, 2, ()), (2, 1, (1,)), (3, 1, (1,)), (2, 3, (1,)), (2, 1, (1, 1)), (4, 1, (2,)), (2, 2, (2, 2))]:
+            rep.count('conv:aliasing configuration', '%d,%d,%s' % (D, P, shp))
+            rep.case(('conv-alias', D, P, shp), True, sample=dict(check='conversion then in-place update of the source', D=D, P=P, shape=list(shp)))
+            pat, changed, ok = alias_pattern(D, P, shp)
+            if pat != ref_pat or changed != ref_changed or not ok:
+                rep.violation('conv:aliasing', 'utpm2base_and_dirs / utpm2dirs for data shape %s: results share memory with the argument %s (generic shapes: %s); '
+                              'after u *= 3 the converted values changed: %s (generic: %s)' % ((D, P) + shp, pat, ref_pat, changed, ref_changed),
+                              dict(kind='conv-alias', D=D, P=P, shape=list(shp)))
+    except Exception as e:
+        rep.violation('conv:aliasing:exception', 'conversion raises %r' % (e,), dict(kind='conv-alias', exc=repr(e)))
+
     # ------------------------------------------------ symvec / vecsym
     for N in range(1, 5 if tier == 'quick' else 7):
         for rep_i in range(2 if tier == 'quick' else 6):
@@ -187,6 +215,14 @@ def main(tier, seed):
                     back = algopy.vecsym(vu)
                     if not numpy.array_equal(back.data, Ad):
                         rep.violation('symvec:utpm', "UTPM vecsym(symvec(A,'%s')) != A for symmetric A, N=%d" % (uplo, N), dict(kind='symvec', N=N, uplo=uplo))
+                    # complex coefficients: nothing is lost either (plain arrays and polynomials)
+                    Ac = Ad + 1j * Ad[::-1]
+                    backc = algopy.vecsym(algopy.symvec(UTPM(Ac.copy()), uplo))
+                    if backc.data.shape != Ac.shape or not numpy.array_equal(backc.data, Ac):
+                        rep.violation('symvec:utpm:complex', "UTPM vecsym(symvec(A,'%s')) != A for a complex symmetric A, N=%d (dtype %s)" % (uplo, N, backc.data.dtype),
+                                      dict(kind='symvec', N=N, uplo=uplo))
+                    if not numpy.array_equal(U.vecsym(U.symvec(Ac[0, 0], uplo)), Ac[0, 0]):
+                        rep.violation('symvec:complex', "vecsym(symvec(A,'%s')) != A for a complex symmetric array, N=%d" % (uplo, N), dict(kind='symvec', N=N, uplo=uplo))
                     # every call form on a NON-symmetric polynomial, slice-wise against the (model-checked) array helper: module-level function
                     # and class method, storage convention given positionally and by keyword, on a UTPM and on a traced Function (recorded
                     # value, and the graph replayed at another point)
